@@ -13,7 +13,7 @@ import json, math, random
 from . import common as C
 
 PID = "C11"
-MUTANTS = ["X_wrong_sum", "x_unnormalised", "mass_mode_as_number", "stale_norm", "mass_unit_blind", "operand_aliased"]
+MUTANTS = ["X_wrong_sum", "x_unnormalised", "mass_mode_as_number", "stale_norm", "mass_unit_blind", "operand_aliased", "selection_by_position"]
 
 
 def cfg(maxk, pvals, mvals, emit):
@@ -117,7 +117,7 @@ def run(replay=None):
     t, sd = C.tier(), C.seed()
     if t == "quick":
         r = C.run_tlc(wd, "Composite", cfg(3, [1, 2], [1, 2], True))
-        nconc = 6
+        nconc = 5
     else:
         r = C.run_tlc(wd, "Composite", cfg(3, [1, 2, 3, 4], [1, 2, 3], True))
         nconc = 10
